@@ -9,10 +9,12 @@
 (*   prepareGocritic: Lock; latch -> return (nil, nil);                    *)
 (*     cached -> return it; newGocritic (writes Params of the shared       *)
 (*     CheckerInfo objects, under the mutex) -> cache or set the latch.    *)
-(* LatchReturnsError = FALSE is what the code does.                        *)
+(* LatchSkips = TRUE: runAnalyzer skips the package when the latch is set    *)
+(* (critic = nil, err = nil); FALSE is the behaviour of the pinned tree      *)
+(* before the fix: the nil configuration was dereferenced.                   *)
 (***************************************************************************)
 EXTENDS Naturals, FiniteSets, TLC
-CONSTANTS Passes, InitFails, LatchReturnsError
+CONSTANTS Passes, InitFails, LatchSkips
 VARIABLES mu, cached, latch, ppc, got, paramsWrittenBy, readingParams
 vars == <<mu, cached, latch, ppc, got, paramsWrittenBy, readingParams>>
 Free == 0
@@ -26,7 +28,7 @@ Enter(p)  == ppc[p] = "idle" /\ ppc' = [ppc EXCEPT ![p] = "enter"]
 Lock(p)   == ppc[p] = "enter" /\ mu = Free /\ mu' = p /\ ppc' = [ppc EXCEPT ![p] = "locked"]
              /\ UNCHANGED <<cached, latch, got, paramsWrittenBy, readingParams>>
 LatchHit(p) == /\ ppc[p] = "locked" /\ latch
-               /\ got' = [got EXCEPT ![p] = IF LatchReturnsError THEN "err" ELSE "neither"]
+               /\ got' = [got EXCEPT ![p] = IF LatchSkips THEN "skip" ELSE "neither"]
                /\ ppc' = [ppc EXCEPT ![p] = "unlock"] /\ UNCHANGED <<mu, cached, latch, paramsWrittenBy, readingParams>>
 CacheHit(p) == /\ ppc[p] = "locked" /\ ~latch /\ cached
                /\ got' = [got EXCEPT ![p] = "cfg"]
@@ -43,6 +45,8 @@ Unlock(p)   == ppc[p] = "unlock" /\ mu = p /\ mu' = Free /\ ppc' = [ppc EXCEPT !
 \* runAnalyzer after prepareGocritic
 ReturnErr(p) == ppc[p] = "prepared" /\ got[p] = "err" /\ ppc' = [ppc EXCEPT ![p] = "returnedErr"]
                 /\ UNCHANGED <<mu, cached, latch, got, paramsWrittenBy, readingParams>>
+Skip(p)      == ppc[p] = "prepared" /\ got[p] = "skip" /\ ppc' = [ppc EXCEPT ![p] = "returnedSkip"]
+                /\ UNCHANGED <<mu, cached, latch, got, paramsWrittenBy, readingParams>>
 Deref(p)     == ppc[p] = "prepared" /\ got[p] = "neither" /\ ppc' = [ppc EXCEPT ![p] = "PANIC"]  \* critic.goVersion on nil
                 /\ UNCHANGED <<mu, cached, latch, got, paramsWrittenBy, readingParams>>
 Create(p)    == ppc[p] = "prepared" /\ got[p] = "cfg" /\ readingParams' = readingParams \cup {p}
@@ -53,11 +57,11 @@ CreateErr(p) == ppc[p] = "checking" /\ readingParams' = readingParams \ {p}
                 /\ ppc' = [ppc EXCEPT ![p] = "returnedErr"] /\ UNCHANGED <<mu, cached, latch, got, paramsWrittenBy>>
 
 Next == \E p \in Passes : Enter(p) \/ Lock(p) \/ LatchHit(p) \/ CacheHit(p) \/ InitOK(p) \/ InitFail(p) \/ Unlock(p)
-                          \/ ReturnErr(p) \/ Deref(p) \/ Create(p) \/ Finish(p) \/ CreateErr(p)
+                          \/ ReturnErr(p) \/ Skip(p) \/ Deref(p) \/ Create(p) \/ Finish(p) \/ CreateErr(p)
 Spec == Init /\ [][Next]_vars
 
 NoPanic == \A p \in Passes : ppc[p] # "PANIC"
-CfgOrErr == \A p \in Passes : ppc[p] = "prepared" => got[p] \in {"cfg", "err"}
+CfgOrErr == \A p \in Passes : ppc[p] = "prepared" => got[p] \in {"cfg", "err", "skip"}
 NoPartial == InitFails => \A p \in Passes : ppc[p] \notin {"checking", "returnedOK"}
 \* a pass never reads Params while another pass is inside the (locked) writer section
 NoParamRace == \A p \in Passes : (ppc[p] = "locked" /\ ~cached /\ ~latch /\ ~InitFails) => readingParams = {}
